@@ -59,6 +59,11 @@ Proof. exact C26_mixed_holds. Qed.
 Theorem C26_jobj : C26_jobj_stmt.
 Proof. exact C26_jobj_holds. Qed.
 
+(* the enum, the map type, the locked serde_json (version, features, recursion limit, hex digits), the
+   visitor / conversion shapes and the table of mixed comparisons are the ones found in the sources today *)
+Theorem C26_source_tie : jsonvalue_source_agrees = true.
+Proof. exact jsonvalue_source_ok. Qed.
+
 (* ---- non-vacuity ---- *)
 
 (* a float reader that knows two canonical texts *)
@@ -76,7 +81,7 @@ Definition C26_example_value : json :=
   JObj [ ("", JNull);
          ("a""b\c", JArr [ JInt (-9223372036854775808)%Z; JInt 18446744073709551615%Z; JInt 0%Z;
                            JFloat "1.5e10"; JFloat "-0.0"; JBool true; JArr []; JObj [] ]);
-         ("s", JStr (hx "080c0a0d09001f7fe4bda0f09f9880" ++ "/"""));
+         ("s", JStr (hx "080c0a0d09001f7fe4bda0f09f9880" ++ "/""\"));
          ("z", JObj [("k", JArr [JStr "v"])]) ].
 
 Example C26_example_premises :
@@ -133,3 +138,4 @@ Print Assumptions C26_conversions.
 Print Assumptions C26_eq.
 Print Assumptions C26_mixed.
 Print Assumptions C26_jobj.
+Print Assumptions C26_source_tie.
